@@ -151,6 +151,8 @@ def check(ctx):
         ctx.oblige("R-C18.5", what + " is an error", w is None)
         if w is not None:
             ctx.violation("R-C18.5", f"comment:{what}", f"{a.word(w)!r} is not reported as an error", file="pycparser/c_lexer.py", function="_regex_rules")
+    from . import c04
+    c04.scope_stack_never_empty(ctx, "R-C18.5")      # an unmatched '}' is reported as ParseError, it never empties the scope stack
     lx = S.module("c_lexer")
     mt = lx.method("CLexer", "_match_token")
     found = False
